@@ -842,6 +842,50 @@ func runC07(w *World, r *Report) {
 			undecidedf("C07.inference-through-side-accessors: only %d inference stores found", n)
 		}
 	}
+	r.Rule("C07.nested-table-initialised-on-its-own-absence", "where package compose initialises a nested table (m[k] = make(map…)) under a comma-ok test, the test looks the SAME table up with the same key: a test of an entry one level further down (m[k][j]) replaces the whole inner table whenever a new j arrives — for the table of run-time edge checks that discards the checks on a node's other outgoing edges, and a wrongly typed value reaches the concretely typed node and panics instead of failing the ordinary check", 3)
+	{
+		n := 0
+		for _, fn := range w.RepoFuncs("compose") {
+			k := 0
+			instrs(fn, func(in ssa.Instruction) {
+				mu, ok := in.(*ssa.MapUpdate)
+				if !ok {
+					return
+				}
+				if _, isMk := mu.Value.(*ssa.MakeMap); !isMk {
+					return
+				}
+				// the comma-ok guards of the block
+				var lookups []*ssa.Lookup
+				for _, g := range guardsOf(mu.Block()) {
+					c := g.cond
+					if u, isU := c.(*ssa.UnOp); isU && u.Op == token.NOT {
+						c = u.X
+					}
+					if e, isE := c.(*ssa.Extract); isE && e.Index == 1 {
+						if lk, isLk := e.Tuple.(*ssa.Lookup); isLk && lk.CommaOk {
+							lookups = append(lookups, lk)
+						}
+					}
+				}
+				if len(lookups) == 0 {
+					return
+				}
+				k++
+				n++
+				same := false
+				for _, lk := range lookups {
+					if types.Identical(lk.X.Type(), mu.Map.Type()) && (lk.Index == mu.Key || valText(lk.Index) == valText(mu.Key)) {
+						same = true
+					}
+				}
+				r.Check(same, "C07.nested-table-initialised-on-its-own-absence", fmt.Sprintf("%s: nested table #%d", w.fname(fn), k), mu.Pos(), "tested with the same table and key", "the table is (re)initialised under a test of another table or key ("+valText(lookups[0].X)+"["+valText(lookups[0].Index)+"]): every new inner key throws away the entries already there — each new run-time-checked edge of a node discards the checks on its other edges, only the last one registered keeps its check")
+			})
+		}
+		if n < 3 {
+			undecidedf("C07.nested-table-initialised-on-its-own-absence: only %d guarded nested-table initialisations found in package compose", n)
+		}
+	}
 	r.Rule("C07.getters-pure", "no get… / is… / input… / output… method of the builder types (graph, graphNode, composableRunnable, genericHelper, Chain, Workflow) stores into its receiver: what they answer follows later type inference", 5)
 	{
 		n := 0
